@@ -349,6 +349,7 @@ func (r *run) c20describe(budget int) {
 		timeout := r.g.Pick(1, 2, 5, 20, 50, 100, 150, 200, 300, 500)
 		s := r.script(timeout, r.descrRes, r.searchRes)
 		op := fmt.Sprintf("desc %d %s", timeout, scriptText(s))
+		inflight(op)
 		var o descOutcome
 		agree := 0
 		// a result that depends on real time is taken when two runs out of at most three agree
@@ -556,6 +557,7 @@ func (r *run) c20discover(budget int) {
 			s = nil
 		}
 		op := fmt.Sprintf("disc %d %s", timeout, scriptText(s))
+		inflight(op)
 		seen := map[string]int{}
 		best := ""
 		for try := 0; try < 3 && hung < 3; try++ {
